@@ -190,7 +190,9 @@ def driver_batch(requests, timeout=1800):
     data = '\n'.join(json.dumps(r, ensure_ascii=False) for r in requests) + '\n'
     p = subprocess.run([str(DRIVER)], input=data.encode('utf-8', 'surrogatepass'),
                        stdout=subprocess.PIPE, stderr=subprocess.PIPE, timeout=timeout)
-    lines = p.stdout.decode('utf-8').splitlines()
+    lines = p.stdout.decode('utf-8').split('\n')
+    if lines and lines[-1] == '':
+        lines.pop()
     if len(lines) != len(requests):
         raise MachineryError('driver returned %d lines for %d requests (rc=%s, stderr=%s)' %
                              (len(lines), len(requests), p.returncode, p.stderr[-300:]))
